@@ -5,6 +5,8 @@
 #include <ascon/isap.h>
 #include "cpp_session.h"
 #include <ascon/utility.h>
+#include <ascon/hash.h>
+#include <ascon/xof.h>
 #include <string.h>
 
 extern "C" void *cpps_new(int family, int alg)
@@ -54,4 +56,15 @@ extern "C" int cpps_decrypt_shared_ba(void *h, unsigned char *m, const void *sha
     if (!ok) return -1;
     if (bm.size()) memcpy(m, bm.data(), bm.size());
     return (int)bm.size();
+}
+
+/* every other consumer of a constant byte_array: message and associated data of encrypt, hash update, xof absorb, customisation string; 150 result bytes */
+extern "C" void cpps_consume_shared_ba(void *h, unsigned char *out, const void *shared)
+{
+    ascon::aead *o = static_cast<ascon::aead *>(h); const ascon::byte_array &b = *static_cast<const ascon::byte_array *>(shared);
+    memset(out, 0, 150);
+    ascon::byte_array c; o->encrypt(c, b, b); if (c.size() <= 80) memcpy(out, c.data(), c.size());
+    { ascon::hash x; x.update(b); x.finalize(out + 80); }
+    { ascon::xofa x; x.absorb(b); x.squeeze(out + 112, 19); }
+    { ascon::xof x("name", b); x.squeeze(out + 131, 19); }
 }
